@@ -32,6 +32,19 @@ type MCase struct {
 	// the pattern language (used where the reference model does not define the pattern form); the file must come
 	// back syntactically unchanged, or the patch be rejected.
 	NoInstance bool `json:"no_instance,omitempty"`
+	// Alts: the same patch text under other readings of which '-' elision the elision of an added line repeats
+	// (the statement fixes that for context lines only); the result under any reading is accepted.
+	Alts []*model.Change `json:"alts,omitempty"`
+}
+
+// rejectionIsViolation: in the universes of C02..C05 every generated patch is well-formed (none is rejected on the
+// pinned tree), so a patch that gopatch refuses to load is a verdict, not a non-case.
+func rejectionIsViolation(o core.Outcome, patchText, file string) core.Outcome {
+	if !strings.HasPrefix(o.Skip, "patch rejected") {
+		return o
+	}
+	return core.Outcome{Nontrivial: true, Class: "rejected", FindingKey: "well-formed-patch-rejected",
+		Violation: "a well-formed patch of the universe is refused: " + o.Skip + "\n--- patch:\n" + patchText + "--- file:\n" + file}
 }
 
 // judgeNoInstance: a file without instances is returned unchanged by the library and by the command line.
